@@ -31,6 +31,25 @@ PROPS = {
         "text": "Theorems c01_plain / c01_forced / c01_empty_prefix / c01_total prove, for every string and every well-formed template table (Spec.sidTableOk, proved for the shipped configuration by Tie.demo_wf), that the operational model of Sid(string) (regex compilation, CPython-priority search with anchors, group dictionary, render-back guard, fall-back) equals the declarative reading of the statement (first template, in order, with as many placeholders as segments and every expression accepting its whole segment; forced template after 'type:'; untyped otherwise) and never fails.",
         "note": "Strings containing '?' are C04's. The model is tied to the code by the sid_strings and resolver families (model vs real Sid()/resolva on generated strings incl. junk, control characters, uri prefixes) and by the Tie.* obligations (model of resolva's compilation reproduces the regexes resolva built).",
     },
+    "C02": {
+        "modules": ["Spil.Props.C02"],
+        "theorems": ["C02.c02_canonical", "C02.c02_uri", "C02.c02_copy", "C02.c02_fields", "C02.c02_eq", "C02.c02_repr"],
+        "families": {"sid_forms": (700, 8000), "resolver": (1500, 15000)},
+        "oracles": {"C02": (2500, 40000)},
+        "design_ref": "DESIGN.md §7 C02",
+        "text": "For every configuration satisfying the documented conventions (Spec.sidHierOk: well-formed templates, same key set ⇒ same key order, every level has a type, plain labels; proved for the shipped configuration by Tie.demo_wf) and every naturally typed Sid (search Sids included): c02_uri / c02_copy (rebuilding from the uri / copy() is the identity), c02_fields (rebuilding from the field dictionary in ANY key order — every List.Perm — is the identity), c02_canonical (the string is the '/'-join of the field values in template order), c02_eq (equal iff type and fields equal), c02_repr (the uri is read back verbatim from repr).",
+        "note": "Hypotheses forced by the proofs and probed on the real code: strings that are non-empty and do not end in a newline ('renderable': resolva's format never renders an empty string, and its reverse check tolerates a final newline). The query round trip (c02_query) is proved with C04. Tied by the sid_forms family (every form, shuffled dictionaries, colliding key sets) and the C02 oracle.",
+    },
+    "C03": {
+        "modules": ["Spil.Props.C02"],
+        "theorems": ["C03.natural_wellTyped", "C03.c03_get_as", "C03.c03_parent", "C03.c03_root", "C03.c03_walk",
+                     "C03.c03_meta", "C03.c03_untyped"],
+        "families": {"sid_forms": (700, 8000)},
+        "oracles": {"C03": (2500, 40000)},
+        "design_ref": "DESIGN.md §7 C03",
+        "text": "For every conventional configuration and every WELL-TYPED Sid (typed by any accepting template: natural, uri-forced, built from fields or a query): c03_get_as (get_as of the i-th key is a well-typed Sid with exactly the first i+1 fields and the corresponding '/'-prefix string), c03_parent (parent = get_as of the second-to-last key, one field less, parent / last value re-resolves the original string and gives back a naturally typed Sid), c03_root, c03_walk (len-1 parents reach the one-field Sid), c03_meta (keytype / basetype / len), c03_untyped (navigations on an untyped Sid return the empty Sid / None, never fail).",
+        "note": "parent / value == sid needs natural typing (a uri-forced type on a string an earlier template also accepts re-resolves to the earlier type: '/' is string concatenation re-resolved, by construction); prefixes must be renderable (non-empty, no trailing newline). Tied by the sid_forms family and the C03 oracle.",
+    },
     "C08": {
         "modules": ["Spil.Props.C08"],
         "theorems": ["C08.c08_glob2re", "C08.c08_segments", "C08.c08_literal", "C08.c08_star_search",
